@@ -26,6 +26,7 @@ import (
 	"log"
 	"net/http"
 	"net/http/httptest"
+	"net/http/httptrace"
 	"net/url"
 	"os"
 	"sort"
@@ -73,6 +74,16 @@ type reqState struct {
 	done     chan struct{}
 	once     sync.Once
 	panicked atomic.Value // string
+	mu       sync.Mutex
+	marks    []string
+}
+
+var t0 = time.Now()
+
+func (st *reqState) mark(m string) {
+	st.mu.Lock()
+	st.marks = append(st.marks, fmt.Sprintf("%s@%d", m, time.Since(t0).Milliseconds()))
+	st.mu.Unlock()
 }
 
 type scen struct {
@@ -110,7 +121,10 @@ func b2i(b bool) int32 {
 func (s *scen) handle(w http.ResponseWriter, r *http.Request) {
 	st := s.state(r.Header.Get("X-Req-Id"))
 	atomic.AddInt32(&st.invoked, 1)
+	st.mark("h-start")
 	n, _ := io.Copy(io.Discard, r.Body)
+	st.mark("h-bodyread")
+	defer st.mark("h-end")
 	if r.Header.Get("X-Hold") != "" {
 		close(s.holdEntered)
 		<-s.holdRelease
@@ -176,7 +190,9 @@ func (s *scen) handle(w http.ResponseWriter, r *http.Request) {
 		if sc.flushAfter == i+1 {
 			if fi {
 				fl.Flush()
+				st.mark("h-flushed")
 				atomic.StoreInt32(&st.flush, waitDelivered(st, cum))
+				st.mark("h-waited")
 			} else {
 				atomic.StoreInt32(&st.flush, 0)
 			}
@@ -378,6 +394,7 @@ func (s *scen) do(body int, hdr map[string]string) (*http.Response, *reqState, e
 	s.seq++
 	id := strconv.Itoa(s.seq)
 	st := s.state(id)
+	st.mark("c-start")
 	var rd io.Reader
 	method := http.MethodGet
 	if body > 0 {
@@ -392,7 +409,24 @@ func (s *scen) do(body int, hdr map[string]string) (*http.Response, *reqState, e
 	for k, v := range hdr {
 		req.Header.Set(k, v)
 	}
+	tr := &httptrace.ClientTrace{
+		ConnectStart:         func(_, _ string) { st.mark("c-connstart") },
+		ConnectDone:          func(_, _ string, _ error) { st.mark("c-conndone") },
+		WroteRequest:         func(httptrace.WroteRequestInfo) { st.mark("c-wrote") },
+		GotFirstResponseByte: func() { st.mark("c-firstbyte") },
+	}
+	req = req.WithContext(httptrace.WithClientTrace(req.Context(), tr))
+	begin := time.Now()
 	resp, err := s.client.Do(req)
+	if d := time.Since(begin); d > 2500*time.Millisecond {
+		if fn := os.Getenv("C20_DEBUG_FILE"); fn != "" {
+			if fh, e := os.OpenFile(fn, os.O_APPEND|os.O_CREATE|os.O_WRONLY, 0o644); e == nil {
+				st.mark("c-slow")
+				fmt.Fprintln(fh, "SLOW", d, err, st.marks)
+				fh.Close()
+			}
+		}
+	}
 	return resp, st, err
 }
 
@@ -446,7 +480,15 @@ func (s *scen) Op(f []string) string {
 	}
 	body := hx.KVInt(f, "body", 0)
 	resp, st, err := s.do(body, nil)
+	st.mark("c-do-returned")
 	if err != nil {
+		st.mark("c-err")
+		if fn := os.Getenv("C20_DEBUG_FILE"); fn != "" {
+			if fh, e := os.OpenFile(fn, os.O_APPEND|os.O_CREATE|os.O_WRONLY, 0o644); e == nil {
+				fmt.Fprintln(fh, "DEBUG", err, st.marks, f)
+				fh.Close()
+			}
+		}
 		<-waitOr(st.done, 500*time.Millisecond)
 		return fmt.Sprintf("err transport:%s invoked=%d%s", errClass(err), atomic.LoadInt32(&st.invoked), panicNote(st))
 	}
@@ -551,7 +593,9 @@ func newScenario(cfg []string) (hx.Handler, string) {
 	}
 	top := http.HandlerFunc(func(w http.ResponseWriter, r *http.Request) {
 		st := s.state(r.Header.Get("X-Req-Id"))
+		st.mark("top-start")
 		defer st.once.Do(func() { close(st.done) })
+		defer st.mark("top-end")
 		defer func() {
 			if p := recover(); p != nil {
 				st.panicked.Store(strings.ReplaceAll(fmt.Sprint(p), " ", "_"))
